@@ -467,7 +467,14 @@ func (m *Machine) Apply(a *Action) (Outcome, error) {
 		}
 		msgs := []sdk.Msg{msg}
 		if a.Twice {
-			msgs = append(msgs, msg)
+			if a.N == 1 {
+				// the same report again with the validator's next nonce: admissible, but it
+				// carries nothing new, so the second message fails and with it the transaction
+				msg2 := sim.BuildPriceMsg(key, a.Feeder, a.Src, entries, a.Based, a.PNonce+1)
+				msgs = append(msgs, msg2)
+			} else {
+				msgs = append(msgs, msg)
+			}
 		}
 		other := m.Keys[(a.Key+1)%len(m.Keys)]
 		var bz []byte
